@@ -8,7 +8,6 @@ initial halo state.
 import contextlib
 import io
 import json
-import os
 import shutil
 import tempfile
 
@@ -225,9 +224,6 @@ class Build:
                 target = kids[step["to"] % len(kids)]
                 if node is target:
                     return "refused:notarget"
-                if isinstance(node, Directive) or isinstance(target,
-                                                             Directive):
-                    pass
                 pos = "after" if step.get("after") else "before"
                 tr.MoveTrans().apply(node, target, {"position": pos})
             else:
@@ -426,12 +422,16 @@ def cls_write_only_annexed(case):
     spec = case["spec"]
     if spec["annexed"] or case.get("bucket") != "a:annexed_cell":
         return False
-    msg = case.get("message_key", "")
-    if "annexed DoFs of a continuous field" not in msg:
-        return False
+    msg = case.get("message_key") or case.get("message") or ""
     for idx, call in enumerate(spec["calls"]):
-        if _is_write_only_disc_kernel(call) and \
-                f"{G.kernel_name(idx)}_code needs" in msg:
+        if not _is_write_only_disc_kernel(call):
+            continue
+        reads_cont = any(
+            a["acc"] == "gh_read" and not a.get("st") and
+            G.is_continuous_space(spec["fields"][a["f"]])
+            for a in call["args"])
+        if reads_cont and (not msg or
+                           f"{G.kernel_name(idx)}_code needs" in msg):
             return True
     return False
 
